@@ -12,10 +12,11 @@ Versions are text: the version class of the scheme is the parameter
 `mkVer : (version class name) → text → Except TErr (str(version))`.
 
 `fromStringItems` is the function up to and including the loop over the items; `fromString`
-adds the one effect of `parsed_constraints.sort()` that does not depend on the scheme's order:
-a star next to any versioned constraint makes the sort compare `None` with a version, which
-raises `TypeError`.  Sorting itself, `simplify=True` and `validate=True` are Layer B
-(`Univers/Vers/Model.lean`: `sortCons`, `simplify`, `validate`) on the versions of the scheme.
+is the same function: the result is a lone star or a list without star (`fromString_starAlone`
+in VersThm.lean), so `parsed_constraints.sort()` never compares `None` with a version
+(FIXED CODE, fix: a star inside a list is a ValueError).  Sorting itself, `simplify=True` and
+`validate=True` are Layer B (`Univers/Vers/Model.lean`: `sortCons`, `simplify`, `validate`) on
+the versions of the scheme.
 
 Not modelled: a non-`str` argument (the model is typed), Python's `str.lower` on non-ASCII
 letters (the ASCII test has already rejected the text at that point).
@@ -100,35 +101,48 @@ def conFromString (mk : List Char → Except TErr (List Char)) (string : List Ch
 
 /-! ### `VersionRange.from_string` -/
 
-/-- the loop `for const in constraints.split("|")` -/
+/-- the loop `for const in constraints.split("|")`.  FIXED CODE: a parsed constraint that
+`is_star()` raises ValueError ("contains an invalid '*' constraint") -/
 def conLoop (mk : List Char → Except TErr (List Char)) : List (List Char) → Except TErr (List TCon)
   | [] => .ok []
   | p :: ps =>
       match conFromString mk p with
       | .error e => .error e
       | .ok c =>
-          match conLoop mk ps with
-          | .error e => .error e
-          | .ok cs => .ok (c :: cs)
+          if c.isStar then .error .ValueError
+          else
+            match conLoop mk ps with
+            | .error e => .error e
+            | .ok cs => .ok (c :: cs)
 
-/-- `from_string` from `constraints = remove_spaces(constraints)` to the list the loop runs
-over.  In the star case the code calls `VersionConstraint.from_string("*")` once and returns:
-that is the loop over the one-element list `["*"]`. -/
-def constraintTexts (constraints0 : List Char) : Except TErr (List (List Char)) :=
-  let constraints := removeSpaces constraints0
+/-- what the text of the constraints is: the lone star, or the list the loop runs over -/
+inductive Body where
+  | star
+  | texts (ts : List (List Char))
+
+/-- `from_string` from `constraints = remove_spaces(constraints).strip("|")` to the list the
+loop runs over.  FIXED CODE: the bars are stripped BEFORE the emptiness test and the star
+test. -/
+def constraintBody (constraints0 : List Char) : Except TErr Body :=
+  let constraints := stripSet ['|'] (removeSpaces constraints0)
   if constraints.isEmpty then .error .ValueError      -- "specifies no version range constraints"
   else if startsWith constraints ['*'] then
-    -- tested BEFORE `strip("|")`: `*|` is rejected, `|*` goes to the loop
     if constraints != ['*'] then .error .ValueError   -- "contains an invalid '*' constraint"
-    else .ok [['*']]
-  else .ok (splitChar '|' (stripSet ['|'] constraints))
+    else .ok .star
+  else .ok (.texts (splitChar '|' constraints))
 
-/-- `from_string` from `constraints = remove_spaces(constraints)` to the end of the loop -/
+/-- `from_string` from `constraints = remove_spaces(constraints).strip("|")` to the end of the
+loop -/
 def parseConstraints (mk : List Char → Except TErr (List Char)) (constraints0 : List Char) :
     Except TErr (List TCon) :=
-  match constraintTexts constraints0 with
+  match constraintBody constraints0 with
   | .error e => .error e
-  | .ok texts => conLoop mk texts
+  | .ok .star =>
+      -- `[VersionConstraint.from_string(string="*", version_class=version_class)]`
+      match conFromString mk ['*'] with
+      | .error e => .error e
+      | .ok c => .ok [c]
+  | .ok (.texts ts) => conLoop mk ts
 
 /-- `from_string` from the ASCII test to `version_class = range_class.version_class`, on the
 text without whitespace: the versioning scheme (the registry key), the name of the version
@@ -167,19 +181,12 @@ def fromStringItems (mkVer : MkVer) (vers : List Char) : Except TErr (List Char 
       | .error e => .error e
       | .ok items => .ok (scheme, items)
 
-/-- a star together with a versioned constraint: `list.sort()` then compares `None` with a
-version -/
-def mixedStar (items : List TCon) : Bool :=
-  items.any Con.isStar && items.any (fun c => !c.isStar)
-
 /-- `VersionRange.from_string(vers)` with `simplify=False, validate=False`, up to the ORDER of
 the result (the items are returned in the order of the text; the range object holds them
-sorted with the scheme's order) -/
+sorted with the scheme's order).  Nothing after the loop can raise: the list is a lone star or
+has no star. -/
 def fromString (mkVer : MkVer) (vers : List Char) : Except TErr (List Char × List TCon) :=
-  match fromStringItems mkVer vers with
-  | .error e => .error e
-  | .ok (scheme, items) =>
-      if mixedStar items then .error .TypeError else .ok (scheme, items)
+  fromStringItems mkVer vers
 
 /-! ### printing -/
 
